@@ -804,3 +804,23 @@ func succAfterSites(fn *ssa.Function, sites []ssa.CallInstruction, r ssa.Instruc
 	}
 	return true
 }
+
+// reachFromBlock: target is reachable from the beginning of blk without executing one of cuts.
+func reachFromBlock(fn *ssa.Function, blk *ssa.BasicBlock, target ssa.Instruction, cuts []ssa.Instruction) (bool, int) {
+	isCut := map[ssa.Instruction]bool{}
+	for _, c := range cuts {
+		isCut[c] = true
+	}
+	for _, in := range blk.Instrs {
+		if in == target {
+			return true, 1
+		}
+		if isCut[in] {
+			return false, 1
+		}
+	}
+	if len(blk.Instrs) == 0 {
+		return false, 0
+	}
+	return CutReach(fn, blk.Instrs[len(blk.Instrs)-1], target, cuts, nil)
+}
